@@ -5,7 +5,7 @@ import common
 import machine
 
 ID = "C03"
-LEAN_MODULES = ["QProps.C03", "QProps.C03x", "QProps.C05h", "QProps.C03g", "QProps.C05x"]
+LEAN_MODULES = ["QProps.C03", "QProps.C03x", "QProps.C05h", "QProps.C03g", "QProps.C05x", "QProps.C03e"]
 THEOREMS = [
     "MM.compExch_not_accepted_atoms",
     "MM.gc_mixed_history_x",
@@ -26,6 +26,9 @@ THEOREMS = [
     "MM.inv_trial_ham",
     "MM.history_restores_any",
     "MM.history_restores_runs",
+    "MM.inv_newRunM",
+    "MM.empty_insertion_is_no_move",
+    "MM.pinned_empty_insertion_deletes_everything",
     "MM.plain_two_deletions_not_restored",
     "MM.reinsert_delete",
     "MM.delete_after_insert",
@@ -265,9 +268,11 @@ class RunBoundaries(Histories):
                 continue
             runs = {}
             for k in sorted(rng.sample(range(1, nt), min(nt - 1, rng.choice([1, 1, 2, 3])))):
-                ev = {"shift": [[rng.randint(-3, 3) for _ in range(3)] for _ in range(12)], "cell": None}
+                ev = {"shift": [[rng.randint(-3, 3) for _ in range(3)] for _ in range(12)], "cell": None, "mom": None}
                 if case["ens"] == "isobaric" and rng.random() < 0.5:
                     ev["cell"] = [rng.randint(8, 13) for _ in range(3)]
+                if case["ens"] == "hamiltonian" and rng.random() < 0.6:
+                    ev["mom"] = [[rng.randint(-3, 3) for _ in range(3)] for _ in range(12)]   # new momenta as well
                 runs[str(k)] = ev
                 if rng.random() < 0.75:
                     case["trials"][k]["verdict"] = False     # the first trial of the new run is rejected
@@ -291,13 +296,18 @@ class RunBoundaries(Histories):
             sim.atoms.positions = new
             if ev["cell"] is not None:
                 sim.atoms.set_cell(np.diag(np.array(ev["cell"], float)), scale_atoms=False)
+            newmom = None
+            if ev.get("mom") is not None:
+                newmom = np.array([ev["mom"][i % len(ev["mom"])] for i in range(n)], float).reshape(n, 3)
+                sim.atoms.set_array("momenta", newmom, float, (3,))
             import warnings
 
             with warnings.catch_warnings():
                 warnings.simplefilter("ignore")
                 sim.mc.validate_simulation()
             events.append((len(out["snapshots"]), "U" + sim.snapshot("T")[1:],
-                           [[machine._int(x) for x in p] for p in new], ev["cell"]))
+                           [[machine._int(x) for x in p] for p in new], ev["cell"],
+                           None if newmom is None else [[machine._int(x) for x in p] for p in newmom]))
 
         obs = machine.run_real(case, hooks={"pre": pre})
         obs.pop("sim")
@@ -311,13 +321,17 @@ class RunBoundaries(Histories):
         line = machine.model_line(case)
         head = line.split(" R ", 1)[0]
         trials = line.split(" R ", 1)[1].split(" ")
-        evs = {i: (pos, cell) for i, _, pos, cell in events}
+        evs = {i: (pos, cell, mom) for i, _, pos, cell, mom in events}
         pieces = []
         for k, t in enumerate(trials):
             if k in evs:
-                pos, cell = evs[k]
-                ops = [x for p in pos for x in p] + (list(cell) if cell is not None else [])
-                pieces.append(",".join(["!run", "1", "1" if cell is not None else "-", machine.s_ints(ops), "-", "-"]))
+                pos, cell, mom = evs[k]
+                if mom is not None:
+                    ops = [x for p in pos for x in p] + [x for p in mom for x in p]
+                    pieces.append(",".join(["!runm", "1", "-", machine.s_ints(ops), "-", "-"]))
+                else:
+                    ops = [x for p in pos for x in p] + (list(cell) if cell is not None else [])
+                    pieces.append(",".join(["!run", "1", "1" if cell is not None else "-", machine.s_ints(ops), "-", "-"]))
             pieces.append(t)
         return [head + " R " + " ".join(pieces)]
 
@@ -329,8 +343,8 @@ class RunBoundaries(Histories):
             return [f"real code raised {real.get('exception')}: {real.get('message')}"]
         ms = model["snapshots"]
         rs = list(real["snapshots"])
-        for off, (i, snap, _, _) in enumerate(real["events"]):
-            rs.insert(i + off, snap)
+        for off, ev in enumerate(real["events"]):
+            rs.insert(ev[0] + off, ev[1])
         if "exception" in real:
             return [f"real code raised {real['exception']} in trial {real.get('exception_at')}: {real['message']}"]
         for k, (r, m) in enumerate(zip(rs, ms)):
